@@ -30,11 +30,11 @@ func init() {
 		ID:             "C05",
 		Run:            runC05,
 		Level:          "fault_enumeration",
-		Rule:           "runs = generated histories (first start, registration, authorizations incl. conflicts, reports, rotations incl. start-up catch-up); fault space per history = every observation point before/after each persistence write, between create and write of server.keys, every boundary between operations, plus the present-but-empty states of server.keys and gcaPubKey.dat (thorough: all of them; quick: seeded half); each crash point = one disk fork booted twice; evaluations counts runs, crash points are in coverage.crash_points; non-trivial = the run booted at least one fork taken inside an operation; distinct = distinct decision signatures",
+		Rule:           "runs = generated histories (first start, registration, authorizations incl. conflicts, reports, rotations incl. start-up catch-up); fault space per history = every observation point before/after each persistence write, between create and write of server.keys, every boundary between operations, plus the present-but-empty states of server.keys and gcaPubKey.dat (thorough: all of them; quick: seeded half); each crash point = one disk fork booted twice; in addition (a third of the budget, S flavour) the same kind of history runs under strace and the disk after EVERY completed file-mutating system call below the server directory (creates, truncates, writes with their data, renames, unlinks - hooks play no part) is rebuilt and recovered: a cut inside an operation may show the state before or after it, a cut between operations exactly the state after the last one; evaluations counts runs, crash points are in coverage.crash_points; non-trivial = the run booted at least one fork taken inside an operation; distinct = distinct decision signatures",
 		Real:           []string{"every persistence write path (server.keys, gcaPubKey.dat, equipment-authorizations.dat, equipment-reports.dat, allDeviceStats.dat)", "NewGCAServer recovery path", "registration on the recovered server"},
-		Stub:           []string{"process death (disk fork at a system-call boundary + fresh incarnation)", "socket listeners"},
-		Assumptions:    []string{"process-crash model: the kernel keeps completed system calls; power-loss effects (torn or lost writes, fsync ordering) are outside the property and not injected", "each operation performs exactly one persistence write, so the recovered state is exact, not a set"},
-		NotInjected:    []string{"torn or lost writes after power loss", "fsync ordering", "disk full / short writes / EIO", "real SIGKILL of an OS process (not replayable; the reachable post-crash disk states are exactly the system-call boundaries enumerated here)"},
+		Stub:           []string{"process death (disk fork at a system-call boundary + fresh incarnation; in the S flavour the boundary list comes from strace of the real system calls)", "socket listeners"},
+		Assumptions:    []string{"process-crash model: the kernel keeps completed system calls; power-loss effects (torn or lost writes, fsync ordering) are outside the property and not injected", "observation-point forks: each operation performs exactly one persistence write, so the recovered state is exact; system-call cuts inside an operation: the state before or the state after that operation"},
+		NotInjected:    []string{"torn or lost writes after power loss", "fsync ordering", "disk full / short writes / EIO", "real SIGKILL of an OS process (not replayable; the reachable post-crash disk states are the system-call boundaries, which the strace mode enumerates from the recorded call list)"},
 		RequiredProbes: []string{"c05.fork.report.before-write", "c05.fork.report.after-write", "c05.fork.auth.after-write", "c05.fork.stats.before-write", "c05.fork.stats.after-write", "c05.fork.gcakey.before-write", "c05.fork.keys.created", "c05.fork.empty-gcakey", "c05.fork.boundary", "c05.fork.conflict", "c05.register-after-crash"},
 		RequiredSites:  []string{"report.before-write", "report.after-write", "auth.before-write", "auth.after-write", "gcakey.before-write", "gcakey.after-write", "stats.before-write", "stats.after-write", "keys.created", "keys.written", "migrate.before-shift", "migrate.after-shift"},
 	})
@@ -48,6 +48,9 @@ type c05Fork struct {
 	extraRot int  // rotations completed (or durable) but not yet applied to the model
 	slot     uint32
 	firstKey bool // taken during the first start: the server key is unknown
+	// alt is a second admissible state (system-call-boundary cuts inside an
+	// operation: the state before the operation or the state after it).
+	alt *ServerModel
 }
 
 type c05State struct {
@@ -154,6 +157,10 @@ func (st *c05State) done() {
 }
 
 func runC05(m *Sim) {
+	if os.Getenv("VERIF_STRACE_FILE") != "" {
+		runC05Trace(m)
+		return
+	}
 	w := NewWorld(m)
 	defer w.Shutdown()
 	h := NewHist(w, "srv0", "C05")
@@ -252,22 +259,22 @@ func c05Recover(w *World, h *Hist, f *c05Fork, idx int, mainKey *KeyPair) {
 		delete(w.byLoc, n.Loc)
 		os.RemoveAll(f.dir)
 	}()
-	model := f.model
-	if model == nil {
-		model = NewServerModel(h.N.Temp.Pub)
+	// prep turns a durable state into the state a start-up at the current
+	// clock produces from it (the documented catch-up).
+	prep := func(model *ServerModel) *ServerModel {
+		if model == nil {
+			model = NewServerModel(h.N.Temp.Pub)
+		}
+		for i := 0; i < f.extraRot; i++ {
+			model.Rotate()
+		}
+		model.CatchUp(Slot())
+		if int64(Slot())-int64(model.Offset) > 3200 {
+			model.Rotate()
+		}
+		return model
 	}
-	for i := 0; i < f.extraRot; i++ {
-		model.Rotate()
-	}
-	// Start-up performs the documented catch-up on top of the durable state.
-	startOff := model.Offset
-	want := model.CatchUp(Slot())
-	if int64(Slot())-int64(model.Offset) > 3200 {
-		model.Rotate()
-		want++
-	}
-	_ = startOff
-	_ = want
+	model := prep(f.model)
 	savedRots := h.Rots
 	h.Rots = nil
 	var startErr error
@@ -294,7 +301,19 @@ func c05Recover(w *World, h *Hist, f *c05Fork, idx int, mainKey *KeyPair) {
 	}
 	s := n.Snap()
 	if err := model.CompareSnap(s); err != nil {
-		w.Fail("C05.prefix", f.site, "crash at %s: recovered state is not the state after the operations whose write had completed: %v", f.site, err)
+		matched := false
+		if f.alt != nil {
+			alt := prep(f.alt)
+			if err2 := alt.CompareSnap(s); err2 == nil {
+				model, matched = alt, true
+				n.Model = alt
+			} else {
+				w.Fail("C05.prefix", f.site, "crash at %s: recovered state is neither the state before the operation in flight (%v) nor the state after it (%v)", f.site, err, err2)
+			}
+		}
+		if !matched {
+			w.Fail("C05.prefix", f.site, "crash at %s: recovered state is not the state after the operations whose write had completed: %v", f.site, err)
+		}
 	}
 	for i := range model.Weeks {
 		ads, ok := n.S.VerifHistoryWeek(i)
